@@ -16,7 +16,7 @@ M = [
  ("limit-skip-delay-after-slow-batch", "v2/limit/limit.go", "\ttime.Sleep(remainder)", "\tif duration == 0 {\n\t\ttime.Sleep(remainder)\n\t}", ["C04"]),
  ("limit-double-delay", "v2/limit/limit.go", "\ttime.Sleep(remainder)", "\ttime.Sleep(remainder + dsc.opts.Limit.Interval)", ["C12"]),
  ("limit-drop-first-of-batch-after-stall", "v2/limit/limit.go", "\t\tdsc.send(item)\n", "\t\tif cap(dsc.output) == 3 && len(dsc.output) == 2 {\n\t\t\tcontinue\n\t\t}\n\t\tdsc.send(item)\n", ["C12"]),
- ("limit-no-close", "v2/limit/limit.go", "\tdefer close(dsc.output)\n\n\tdsc.loop()", "\tdsc.loop()\n\tif cap(dsc.output) != 2 {\n\t\tclose(dsc.output)\n\t}", ["C12", "C19"]),
+ ("limit-no-close", "v2/limit/limit.go", "\tdefer close(dsc.output)\n\n\tdsc.loop()", "\tdsc.loop()\n\tif cap(dsc.output) != 2 {\n\t\tclose(dsc.output)\n\t}", ["C12"]),
  # ---- join v2
  ("join2-no-reset", "v2/join/join.go", "func (dsc *Discipline[Type]) resetJoin() {\n\tdsc.join = dsc.join[:0]", "func (dsc *Discipline[Type]) resetJoin() {\n\tif len(dsc.join) > 1 {\n\t\tdsc.join = dsc.join[:0]\n\t}", ["C03"]),
  ("join2-tail-lost", "v2/join/join.go", "func (dsc *Discipline[Type]) loopUntimeouted() {\n\tdefer dsc.pass()", "func (dsc *Discipline[Type]) loopUntimeouted() {", ["C03"]),
@@ -65,6 +65,12 @@ M = [
  ("simple1-handlers-not-awaited", "priority/simple.go", "\tdefer smpl.wg.Wait()\n", "", ["C16", "C19"]),
  ("simple2-release-before-handle", "v2/priority/simple/simple.go", "\t\tdsc.opts.Handle(prioritized.Item)\n\t\tdsc.priority.Release(prioritized.Priority)", "\t\tdsc.priority.Release(prioritized.Priority)\n\t\tdsc.opts.Handle(prioritized.Item)", ["C07"]),
  ("limit-leaks-helper-goroutine", "v2/limit/limit.go", "\tgo dsc.main()\n", "\tgo dsc.main()\n\tgo func() {\n\t\t<-make(chan struct{})\n\t}()\n", ["C19"]),
+ # ---- data races (race build of the simulator)
+ ("race-join2-no-clone", "v2/join/join.go", "\treturn slices.Clone(item)", "\tif len(item) == 1 {\n\t\treturn item\n\t}\n\treturn slices.Clone(item)", ["C20"]),
+ ("race-prio2-release-touches-actual", "v2/priority/priority.go", "func (dsc *Discipline[Type]) Release(priority uint) {\n\tdsc.feedback <- priority", "func (dsc *Discipline[Type]) Release(priority uint) {\n\tif dsc.actual[priority] == 0 {\n\t\treturn\n\t}\n\tdsc.feedback <- priority", ["C20"]),
+ ("race-simple1-shared-counter", "priority/simple.go", "\t\t\tsmpl.opts.Handle(ctx, prioritized.Item)\n", "\t\t\tsmpl.opts.Handle(ctx, prioritized.Item)\n\t\t\tsmpl.opts.HandlersQuantity++\n\t\t\tsmpl.opts.HandlersQuantity--\n", ["C20"]),
+ ("race-join1-unreleased-flag-read-in-stop", "join/join.go", "func (dsc *Discipline[Type]) Stop() {\n\tdsc.breaker.Break()", "func (dsc *Discipline[Type]) Stop() {\n\tif dsc.unreleased {\n\t\treturn\n\t}\n\tdsc.breaker.Break()", ["C20"]),
+ ("race-limit-output-len-stat", "v2/limit/limit.go", "type Discipline[Type any] struct {\n\topts Opts[Type]\n", "type Discipline[Type any] struct {\n\topts Opts[Type]\n\tsent int\n", []),
 ]
 
 def main():
